@@ -878,6 +878,48 @@ theorem carried_noop_blocks_release_witness :
     (loopStepC { envD false with exec := fun _ _ => okOutcome } .noop stateD).writes = stateD.writes := by
   refine ⟨fun _ _ => rfl, rfl, rfl, rfl, by decide, by decide, by decide, by decide, by decide, by decide⟩
 
+/-! ### cycles held back by the consistency barrier (C07's mechanism): where C03-N6 lives -/
+
+/-- Every theorem about `loopStep` / `iter` above is about turns on a consistent view. An INCONSISTENT turn (the worker
+    still awaits the echo of its own last write) with no patch accumulated is the same turn taken at the consistency
+    deadline — all of them apply with the later clock. FULL STATEMENT (property): convergence whatever the view of the
+    turns, i.e. also along `loopStepI env ne dl` — FALSE of the code for `ne = true`: `inconsistent_nonempty_witness`
+    (OPEN C03-N6). -/
+theorem inconsistent_empty_partial (env : Env) (dl : Tick) (s : State E) (hp : s.pending = true) (hg : s.gone = false)
+    (ha : adjusting env s = false) (hpm : env.prematch = true) :
+    loopStepI env false dl s = loopStep env { s with now := if s.now < dl then dl else s.now } := by
+  unfold loopStepI
+  simp [hp, hg, ha, hpm]
+
+/-- C03-N6 (open): lost wake-up in the consistency wait. The update `1 → 2` is outstanding, its handler `u0` would
+    succeed at once, but the turn is inconsistent (the echo of the framework's last write was lost) and a patch is
+    already accumulated (an on.event handler's idempotent function, or its constant result): the wait for the deadline
+    and the handlers are skipped, the patch changes nothing, no event follows: quiescent for ever with last-handled ≠
+    essence, `u0` never called. With an empty patch the same turn handles the update at the deadline.
+    Replayed on the real operator: corpus/C03/N6_inconsistent_noop_patch_skips_wait.json, N6b_*. -/
+theorem inconsistent_nonempty_witness :
+    WF envI ∧ AllFinal envI ∧ Uniform envI stateC ∧ envI.prematch = true ∧ adjusting envI stateC = false ∧
+    stateC.pending = true ∧ stateC.gone = false ∧ isHandler stateC = true ∧ "u0" ∈ selOf envI stateC ∧
+    (loopStepI envI true 576 stateC).pending = false ∧ (loopStepI envI true 576 stateC).base ≠ some stateC.ess ∧
+    (loopStepI envI true 576 stateC).writes = stateC.writes ∧
+    (loopStepI { envI with constPatch := true } true 576 stateC).pending = false ∧
+    (loopStepI { envI with constPatch := true } true 576 stateC).base ≠ some stateC.ess ∧
+    (∀ n, iter envI n (loopStepI envI true 576 stateC) = loopStepI envI true 576 stateC) ∧
+    -- whereas with an empty patch the turn is taken at the deadline and the loop converges
+    (loopStepI envI false 576 stateC).now = 577 ∧ (pass envI { stateC with now := 576 }).invoked = [("u0", 0)] ∧
+    (iter envI 1 (loopStepI envI false 576 stateC)).pending = false ∧
+    (iter envI 1 (loopStepI envI false 576 stateC)).base = some 2 := by
+  refine ⟨⟨?_, by decide, by decide, by decide⟩, fun _ _ => rfl, ⟨"update", fun i _ r h => by simp [stateC] at h⟩,
+    rfl, by decide, rfl, rfl, by decide, by decide, by decide, by decide, by decide, by decide, by decide, ?_,
+    by decide, by decide, by decide, by decide⟩
+  · intro c i hi
+    simp only [envI] at hi ⊢
+    split at hi
+    · exact hi
+    · simp at hi
+  · intro n
+    exact iter_quiescent envI n _ (by decide)
+
 -- `stateN` (Model): a live object that needs the finalizer first: the adding turn, then the creation
 
 -- non-vacuity of `terminates` / `converges` / `completed_against_final_partial` /
